@@ -28,7 +28,7 @@ def bounds():
 def gen_script(r, tier, idx):
     from vlib.man import Phase
 
-    kind = r.choice(["reset-in-connect", "reset-in-connect", "blackout-connected", "lossy", "rferr", "blackout-at-start", "mixed", "reset-anytime", "set-info", "interface-down", "rferr-long", "not-found-then-reset", "reset-at-step", "reset-at-step"])
+    kind = r.choice(["reset-in-connect", "reset-in-connect", "blackout-connected", "lossy", "rferr", "blackout-at-start", "mixed", "reset-anytime", "set-info", "interface-down", "rferr-long", "not-found-then-reset", "reset-at-step", "reset-at-step", "blackout-near-tick"])
     phases, actions = [], []
     if kind == "reset-in-connect":
         # a reset at a 100 ms step of the first connection attempt
@@ -41,6 +41,14 @@ def gen_script(r, tier, idx):
         k = (idx % 330) if tier == "thorough" else r.randrange(0, 330)
         actions = [(("step", k), r.choice(["reset", "reset", "set-info"]))]
         phases = [Phase("healthy", 8)]
+    elif kind == "blackout-near-tick":
+        # active timing profile (forced pump-running snapshot): the outage begins just before the
+        # periodic refresh / facade update, whose retrying requests then hold the protocol lock
+        # for longer than the not-responding timeout while the ping waits behind them
+        import geckolib.config as C
+
+        tick = C._GeckoActiveConfig.SPA_PACK_REFRESH_FREQUENCY_IN_SECONDS
+        phases = [Phase("healthy", tick + 3.6 + r.choice([-3.0, -2.0, -1.0, -0.3, 0.5])), Phase("blackout", r.choice([60, 150, 400]))]
     elif kind == "blackout-connected":
         phases = [Phase("healthy", r.choice([6, 30, 70])), Phase("blackout", r.choice([0.5, 5, 30, 140, 400, 560]))]
     elif kind == "lossy":
@@ -84,6 +92,8 @@ def scenario(sh: Shard, seed, idx, tier):
     B_up, B_down = bounds()
     label = f"{seed}:{idx}:{kind}"
     snapshot = r.choice(["default.snapshot", "inYT-Pump1Hi-2020-12-13 11_19_35.snapshot", "inYT-all off-2020-10-23 18_00_45.snapshot"])
+    if kind == "blackout-near-tick":
+        snapshot = "inYT-Pump1Hi-2020-12-13 11_19_35.snapshot"
     mw = ManWorld(r, regime, suspend=suspend, snapshot=snapshot, max_iter=20_000_000, wall_cap=900)
     out = {}
     try:
@@ -271,7 +281,7 @@ def main(tier, seed):
     run.extra["bounds_virtual_seconds"] = {"B_up": up, "B_down": down}
     run.need(run.counters.get("recoveries", 0) > 60, "too few recoveries observed")
     run.need(run.counters.get("long_outages_from_connected", 0) >= 1 or tier == "quick", "no long outage from CONNECTED")
-    for k in ("reset-in-connect", "blackout-connected", "lossy", "rferr", "blackout-at-start", "mixed", "interface-down", "rferr-long", "not-found-then-reset", "reset-at-step"):
+    for k in ("reset-in-connect", "blackout-connected", "lossy", "rferr", "blackout-at-start", "mixed", "interface-down", "rferr-long", "not-found-then-reset", "reset-at-step", "blackout-near-tick"):
         run.need(k in run.sets.get("script_kinds", set()), f"script kind {k} not exercised")
     return run.finish(
         rule="fault scripts (reset / set-spa-info at a 100 ms step of the first connection attempt - thorough: every step 0..5.9 s -, blackout while connected from 0.5 to 400 s, lossy 20-90 %, RF-error periods (up to 3600 s: past the too-many-RF-errors escalation), interface-down periods (every send fails with an OS error reported through error_received), blackout at start, mixed phase sequences with resets) followed by a healthy network, silent spa-side changes during outages, handlers none/tick/seconds, regimes B/J; one evaluation = one script; distinct = distinct scripts",
